@@ -29,7 +29,9 @@ Quirks kept on purpose (see docs/planner_ilp.md):
   overlaps `t₁` (pairwise, not per instant), on every worker, also workers `t₁`
   is not placed on;
 * dependent (ancestor/descendant) pairs get `Overlap = 0` and no indicator rows;
-* a SCHEDULED task in non-retracting mode is re-optimised with `Σ x = 1`.
+* a SCHEDULED task in non-retracting mode is re-optimised with `Σ x = 1`;
+* a SCHEDULED task with an incompatible (worker, strategy) pair crashes the call
+  (`Inst.crash`).
 
 Core Lean only (the driver links this module).
 -/
@@ -207,6 +209,14 @@ def Inst.durE (I : Inst) (t : Nat) : LinExpr Var :=
   LinExpr.sumL ((I.keys t).map (fun k => LinExpr.smul (I.runtime t k.2) (I.xE t k.1 k.2)))
 
 def Inst.nonRunning (I : Inst) : List Nat := (List.range I.nT).filter (fun t => !I.running t)
+
+/-- `TaskOptimizerVariables.__init__` (lines 238-255) seeds `.Start` on *every* value of the
+placement dict of a SCHEDULED task; for a (worker, strategy) pair that is not compatible the
+value is the int `0`, which has no such attribute: `schedule()` raises `AttributeError`
+before any model is solved. -/
+def Inst.crash (I : Inst) : Option String :=
+  if I.nonRunning.any (fun t => (I.task t).state == .scheduled &&
+      (I.keys t).any (fun k => !I.hasVar t k.1 k.2)) then some "AttributeError" else none
 
 /-! ### Names (identical to the f-strings of the code) -/
 
